@@ -25,6 +25,7 @@ func rulesC01(c *Ctx) {
 	ruleResultMapping(c)
 	ruleExplicitReplace(c)
 	ruleRetryAfterInstall(c)
+	ruleOpResultID(c)
 }
 
 // R1.2
@@ -220,7 +221,7 @@ func ruleExplicitReplace(c *Ctx) {
 				continue
 			}
 			// on a path that installs with explicitReplace == true, an existence test must have succeeded
-			if !p.Entails(&FLit{"b:" + er.Name(), 2, 1}) { // not known to be false → may be an explicit replace
+			if !p.Entails(&FLit{"b:" + varKey(er), 2, 1}) { // not known to be false → may be an explicit replace
 				seen++
 				okExists := false
 				for _, cs := range p.Conds {
@@ -229,7 +230,7 @@ func ruleExplicitReplace(c *Ctx) {
 						atomsOf(cs.F, atoms)
 						for a := range atoms {
 							if strings.HasPrefix(a, "b:call:") && strings.Contains(a, "Exists#") {
-								if p.Entails(fnot(fand(&FLit{"b:" + er.Name(), 2, 2}, &FLit{a, 2, 1}))) {
+								if p.Entails(fnot(fand(&FLit{"b:" + varKey(er), 2, 2}, &FLit{a, 2, 1}))) {
 									okExists = true
 								}
 							}
